@@ -4,15 +4,15 @@ from .. import facts as _facts
 
 CRATE = 'ndarray_interp'
 
-A_INTERP1D = 'interp1d::Interp1D'
-A_INTERP2D = 'interp2d::Interp2D'
+A_INTERP1D = 'Interp1D'
+A_INTERP2D = 'Interp2D'
 ENTRY_1D = ['interp_scalar', 'interp', 'interp_into', 'interp_array', 'interp_array_into']
 ENTRY_2D = ENTRY_1D
-STRAT_1D = ['<interp1d::strategies::linear::Linear as interp1d::strategies::Interp1DStrategy>::interp_into',
-            '<interp1d::strategies::cubic_spline::CubicSplineStrategy as interp1d::strategies::Interp1DStrategy>::interp_into']
-STRAT_2D = ['<interp2d::strategies::bilinear::Bilinear as interp2d::strategies::Interp2DStrategy>::interp_into']
-SINK_1D = 'interp1d::strategies::Interp1DStrategy::interp_into'
-SINK_2D = 'interp2d::strategies::Interp2DStrategy::interp_into'
+STRAT_1D = ['<Linear as Interp1DStrategy>::interp_into',
+            '<CubicSplineStrategy as Interp1DStrategy>::interp_into']
+STRAT_2D = ['<Bilinear as Interp2DStrategy>::interp_into']
+SINK_1D = 'Interp1DStrategy::interp_into'
+SINK_2D = 'Interp2DStrategy::interp_into'
 
 
 def load(chk):
@@ -23,7 +23,13 @@ def load(chk):
     chk.note('mir_bodies_in_crate', len(f['mir']))
     chk.trusted += ["rustc nightly front end (type checker, THIR/MIR construction) as driven by /verif/driver",
                     "API contracts of ndarray 0.16 / num-traits / std as listed in the assumptions"]
-    return Lib(f)
+    lib = Lib(f)
+    from .. import roles
+    lib.aliases = roles.resolve(lib)
+    from .. import layout
+    layout.bind(lib)
+    chk.note('helpers_located_by_role', lib.aliases or 'all under their usual names')
+    return lib
 
 
 def anchor(chk, lib, path, rule='E0'):
